@@ -628,18 +628,35 @@ def tensorParams (ps : List Param) : List Name :=
 def attrParams (ps : List Param) : List Name :=
   ps.filterMap (fun p => match p with | .attr x _ => some x | .tensor _ => none)
 
-/-- `Converter.translate_function_def`: the analyser runs first (an unsupported statement is a
-ValueError before anything is translated); tensor parameters enter `used` (attribute
-parameters do not). -/
+/-- The translation proper (`_translate_function_def_common`): tensor parameters enter `used` (attribute
+parameters do not), the body is translated statement by statement. -/
+def convertCore (f : Func) : Except Err Graph :=
+  let ins := tensorParams f.params
+  let s0 : St := { used := ins.reverse, next := 0, castable := [] }
+  match convTop ins f.retCount [paramFrame f.params] f.body [] s0 with
+  | .error e => .error e
+  | .ok ((ns, outs), _) =>
+    .ok { inputs := ins, attrs := attrParams f.params, nodes := ns, outputs := outs }
+
+/-- `Converter.translate_function_def`: the analyser runs first (an unsupported statement is a ValueError
+before anything is translated); a call that takes a default-domain operator from an opset of another version
+than `default_opset` is refused (`_set_default_opset`: "Two distincts opset were used", TranslationError —
+its precedence relative to other errors of the same program is not modelled). -/
 def convert (f : Func) : Except Err Graph :=
   match assignedBlock f.body with
   | none => .error .value
-  | some _ =>
-    let ins := tensorParams f.params
-    let s0 : St := { used := ins.reverse, next := 0, castable := [] }
-    match convTop ins f.retCount [paramFrame f.params] f.body [] s0 with
-    | .error e => .error e
-    | .ok ((ns, outs), _) =>
-      .ok { inputs := ins, attrs := attrParams f.params, nodes := ns, outputs := outs }
+  | some _ => if opsetsOK f then convertCore f else .error .translation
+
+theorem convert_core {f : Func} {g : Graph} (h : convert f = .ok g) :
+    convertCore f = .ok g ∧ opsetsOK f = true ∧ ∃ d, assignedBlock f.body = some d := by
+  unfold convert at h
+  cases ha : assignedBlock f.body with
+  | none => rw [ha] at h; cases h
+  | some d =>
+    rw [ha] at h
+    simp only at h
+    by_cases ho : opsetsOK f = true
+    · rw [if_pos ho] at h; exact ⟨h, ho, d, rfl⟩
+    · rw [if_neg ho] at h; cases h
 
 end OV.C01
